@@ -4,7 +4,7 @@
    document generator's ground truth (declared encoding).  Lookups that miss fall back to:
    lower = identity, known = false, decode = None (failure), sniff = None, chardet = None. *)
 From Coq Require Import List ZArith NArith Bool.
-From BS Require Import Base.Sexp Base.Types Gen.T_C07 Model.Dammit.
+From BS Require Import Base.Sexp Base.Types Gen.T_C07 Model.Dammit Model.Sniff.
 Import ListNotations.
 Open Scope Z_scope.
 
@@ -92,5 +92,30 @@ Definition disp_c07 (sub : Z) (args : list sexp) : sexp :=
       let r := strip_bom (gstr data) in L [sstr (fst r); s_ostr (snd r)]
   (* (7004 name lower known) -> codec? *)
   | 4, name :: lo :: kw :: _ => s_ostr (find_codec (mk_lower lo) (mk_known kw) (gstr name))
+  (* (7005 kind data is_html entire lower) -> name? : EncodingDetector.find_declared_encoding, modelled scanners *)
+  | 5, kd :: data :: html :: entire :: lo :: _ =>
+      s_ostr (find_declared_encoding (mk_lower lo) (g_markup kd data) (gbool html) (gbool entire))
+  (* 7006 / 7007 / 7008 = 7000 / 7001 / 7002 with the declared encoding computed by Model/Sniff.v
+     (the sniff table argument is ignored) *)
+  | 6, kd :: data :: kn :: ov :: us :: ex :: html :: _ :: ch :: lo :: kw :: de :: _ =>
+      let m := g_markup kd data in
+      let a := mkargs (glist gstr kn) (glist gstr ov) (glist gstr us) (glist gstr ex) (gbool html) in
+      let lower := mk_lower lo in let sniff := sniff_model lower in let chardet := mk_chardet ch in
+      let r := dammit lower (mk_known kw) (mk_decode de) sniff chardet m a in
+      L [s_ostr (r_text r); s_ostr (r_orig r); sbool (r_flag r); s_ostr (r_declared_html r);
+         slist (fun p => L [sstr (fst p); s_mode (snd p)]) (r_tried r); s_markup (r_markup r);
+         s_ostr (det_sniffed m); slist sstr (encodings lower sniff chardet m a)]
+  | 7, kd :: data :: kn :: ov :: us :: ex :: html :: _ :: ch :: lo :: _ =>
+      let m := g_markup kd data in
+      let a := mkargs (glist gstr kn) (glist gstr ov) (glist gstr us) (glist gstr ex) (gbool html) in
+      let lower := mk_lower lo in let sniff := sniff_model lower in let chardet := mk_chardet ch in
+      L [slist sstr (encodings lower sniff chardet m a); s_ostr (det_sniffed m); s_markup (det_markup m);
+         s_ostr (det_declared sniff m a)]
+  | 8, kd :: data :: fe :: ex :: _ :: ch :: lo :: kw :: de :: _ =>
+      match prepare_markup (mk_lower lo) (mk_known kw) (mk_decode de) (sniff_model (mk_lower lo)) (mk_chardet ch)
+                           (g_markup kd data) (gopt gstr fe) (glist gstr ex) with
+      | Rejected => L [A 0]
+      | Prepared t o d f => L [A 1; sstr t; s_ostr o; s_ostr d; sbool f]
+      end
   | _, _ => A (-1)
   end.
